@@ -174,6 +174,7 @@ impl Monitors {
 
         self.check_sends(pre, rec, post, &told, delivered_genuine, at, out, stats);
         self.check_relays(pre, rec, post, &told, at, out, stats);
+        self.check_suspicion_timeout(pre, rec, post, at, out, stats);
         self.check_notifications_and_epochs(pre, rec, post, &told, delivered_genuine, at, out, stats);
         self.check_table(pre, rec, post, &told, at, out);
         self.check_incarnation(pre, rec, post, &told, at, out, stats);
@@ -555,6 +556,81 @@ impl Monitors {
         }
         if n_defunct > 0 {
             stats.add("defuncts", n_defunct);
+        }
+    }
+
+    // ---- C11 ---------------------------------------------------------------------------------------------
+    /// The iff-oracle of C11 on every suspicion timeout delivered in any history (genuine, duplicated,
+    /// stale or crafted): it takes effect - completely - iff the record still shows that identity at
+    /// that incarnation (and is not Down already) and the token is the current epoch's; otherwise the
+    /// call changes nothing and emits nothing.
+    fn check_suspicion_timeout(&mut self, pre: &Obs, rec: &CallRec, post: &Obs, at: u64, out: &mut Vec<Violation>, stats: &mut Stats) {
+        let Input::Timer(Timer::ChangeSuspectToDown { member_id, incarnation, token }) = &rec.input else { return };
+        if rec.result == Res::Panic {
+            return;
+        }
+        // Between change_identity / reuse_down_identity and the next contact with the cluster the instance
+        // is disconnected although it lists active members, and no timeout of the new epoch can exist yet:
+        // one that carries the current token there is crafted from a future epoch (outside "duplicate/stale
+        // timers"), and the reconnection it triggers is the pending one, not an effect of the timeout.
+        if !pre.connected() && !pre.active.is_empty() {
+            stats.inc("c11_timeouts_skipped_crafted_before_reconnection");
+            return;
+        }
+        let codec = self.codec;
+        let slot = pre.slot(member_id.addr);
+        let live = slot.is_some_and(|m| m.id() == member_id && m.incarnation() == *incarnation && m.state() != State::Down);
+        let current = *token == pre.snap.timer_token;
+        let ctx = format!("timeout for {member_id}@{incarnation} token {token} (current {}), slot before: {slot:?}", pre.snap.timer_token);
+        if !(live && current) {
+            stats.inc("c11_timeouts_without_effect_expected");
+            if !rec.no_effects() || rec.result != Res::Ok || pre != post {
+                v(out, "C11", "C11/cancelled-timeout-had-effect", at, format!("{ctx}: result {:?}, {} effect(s), state changed: {}", rec.result, rec.fx.len(), pre != post));
+            }
+            return;
+        }
+        stats.inc("c11_timeouts_taking_effect");
+        if rec.result != Res::Ok {
+            v(out, "C11", "C11/timeout-error", at, format!("{ctx}: result {:?}", rec.result));
+            return;
+        }
+        let downs = rec.notes().filter(|n| matches!(n, OwnedNotification::MemberDown(x) if x == member_id)).count();
+        if downs != 1 {
+            v(out, "C11", "C11/no-memberdown", at, format!("{ctx}: {downs} MemberDown notifications"));
+        }
+        match post.slot(member_id.addr) {
+            Some(m) if m.id() == member_id && m.state() == State::Down => {}
+            other => v(out, "C11", "C11/not-down-after-timeout", at, format!("{ctx}: slot after: {other:?}")),
+        }
+        let want = crate::codec::enc_member(codec, &Member::new(*member_id, *incarnation, State::Down));
+        if !post.snap.updates.iter().any(|(dta, r)| *dta == want && *r == self.cfg.max_transmissions.get() as usize) {
+            v(out, "C11", "C11/down-not-gossiped", at, format!("{ctx}: the Down update is not pending for dissemination with max_transmissions left"));
+        }
+        let removes = rec.scheds().filter(|(t, after)| matches!(t, Timer::RemoveDown(x) if x == member_id) && **after == self.cfg.remove_down_after).count();
+        if removes != 1 {
+            v(out, "C11", "C11/forget-not-scheduled", at, format!("{ctx}: {removes} RemoveDown scheduled after remove_down_after"));
+        }
+        let is_tu = |data: &Vec<u8>| parse_datagram(codec, data).is_ok_and(|p| matches!(p.header.message, Message::TurnUndead));
+        let tu: Vec<_> = rec.sends().filter(|(_, d)| is_tu(d)).collect();
+        if self.cfg.notify_down_members {
+            if tu.len() != 1 || tu[0].0 != member_id {
+                v(out, "C11", "C11/turnundead-missing", at, format!("{ctx}: notify_down_members is on, {} TurnUndead sent", tu.len()));
+            }
+        } else if !tu.is_empty() {
+            v(out, "C11", "C11/turnundead-unwanted", at, format!("{ctx}: notify_down_members is off, TurnUndead sent"));
+        }
+        let last = pre.active.len() == 1 && pre.active[0].id() == member_id;
+        for e in &rec.fx {
+            let ok = match e {
+                Effect::Send { data, .. } => is_tu(data),
+                Effect::Sched { timer, .. } => matches!(timer, Timer::RemoveDown(x) if x == member_id),
+                Effect::Notify(OwnedNotification::MemberDown(x)) => x == member_id,
+                Effect::Notify(OwnedNotification::Idle) => last && pre.connected(),
+                Effect::Notify(_) => false,
+            };
+            if !ok {
+                v(out, "C11", "C11/unexpected-extra-effect", at, format!("{ctx}: {e:?}"));
+            }
         }
     }
 
